@@ -297,6 +297,12 @@ class QuantityMachine(Machine):
         a = self._pick(rng)
         fam = self.pool[a]["fam"]
         if rng.random() < 0.04:
+            # quantities handed out by the long-lived Unit() accessor of this run: each access
+            # is a quantity of its own, so what is done to one in place stays with that one
+            fam_ = rng.choice(["length", "time", "mass", "energy"])
+            sym = rng.choice([u for u in FAMILIES[fam_] if u.isalpha()])
+            return {"op": "new_acc", "sym": sym, "fam": fam_}
+        if rng.random() < 0.04:
             # the caller writes into an array it owns: the one it built a quantity from, or
             # the one value() handed out (which is that quantity's own storage)
             return {"op": "poke", "a": a, "how": rng.choice(["src", "value", "value"])}
@@ -441,7 +447,8 @@ class QuantityMachine(Machine):
                         if isinstance(UM.S.UNIT_STANDARD[s_].magnitude, int)]
                 if ints:
                     terms = [["", rng.choice(sorted(ints)), rng.choice([-1, -1, -2, 1]), 1]]
-            how = rng.choice(["sqrt", "cbrt", "pow_pair", "pow_float"])
+            how = rng.choice(["sqrt", "cbrt", "pow_pair", "pow_float", "pow_pair_nn",
+                              "pow_pair_negden"])
             return {"op": "new_root", "terms": terms, "how": how,
                     "value": rng.choice([4.0, 9.0, 2.25, 64.0, 1e4])}
         if len(self.pool) >= 2 and rng.random() < 0.1:
@@ -454,7 +461,7 @@ class QuantityMachine(Machine):
                     and la is not None and tuple(e["led"]["dims"]) == tuple(la["dims"])]
             if same:
                 return {"op": rng.choice(["conv_to_member", "conv_to_quantity"]), "a": a,
-                        "b": rng.choice(same)}
+                        "b": rng.choice(same), "how": rng.choice(["to", "value"])}
         if self.pool and rng.random() < 0.04:
             cands = [i for i, e_ in enumerate(self.pool) if "src" in e_]
             if cands:
@@ -501,6 +508,8 @@ class QuantityMachine(Machine):
                   "kind": kind, "abse": None}
             if kind == "array" and rng.random() < 0.4:
                 op["unit_form"] = rng.choice(["baseunits", "quantity", "member"])
+            elif any(t[2] < 0 and t[3] != 1 for t in terms) and rng.random() < 0.5:
+                op["negden"] = True
             if cfg["errors"] and rng.random() < 0.4:
                 op["abse"] = rng.choice([0.1, 0.5])
             return op
@@ -635,6 +644,14 @@ class QuantityMachine(Machine):
             return "new", [op["unit"], op["kind"]]
         if kind == "stale_rebase":
             return self._stale_rebase(op)
+        if kind == "new_acc":
+            try:
+                q = getattr(self.acc, op["sym"])
+            except Exception as e:
+                return "new_failed", type(e).__name__
+            self._add(q, op.get("fam"))
+            self.stats.probe("member_from_unit_accessor")
+            return "new", [op["sym"], "accessor"]
         if not self.pool:
             return "skip", None
         if kind == "poke":
@@ -980,6 +997,8 @@ class QuantityMachine(Machine):
             v, kw = self._mk(op)
             try:
                 unit = text
+                if op.get("negden") and terms:
+                    unit = UM.text(terms, 0, negden=True)
                 form = op.get("unit_form")
                 if form == "baseunits" and terms:
                     unit = Quantity(1, text).baseunits
@@ -1040,6 +1059,10 @@ class QuantityMachine(Machine):
                         q = np.cbrt(big)
                     elif op["how"] == "pow_pair":
                         q = big ** (1, 2)
+                    elif op["how"] == "pow_pair_nn":
+                        q = big ** (-1, -2)          # the same exponent, both signs flipped
+                    elif op["how"] == "pow_pair_negden":
+                        q = big ** (1, -2)           # the inverse root, sign on the denominator
                     else:
                         q = big ** 0.5
             except Exception as e:
@@ -1048,6 +1071,10 @@ class QuantityMachine(Machine):
                                  "error": [type(e).__name__, repr(e.args)[:200]]},
                                 signature="C04/root/failed")
             root = x ** (1.0 / n)
+            if op["how"] == "pow_pair_negden":
+                root = 1.0 / root
+                terms = [[p_, s_, -num, den] for p_, s_, num, den in terms]
+                f = UM.factor(terms)
             led = {"B": root * f, "dims": UM.dims(terms), "terms": terms, "origin": terms,
                    "chain": 0, "text": UM.text(terms, 0), "x0": root}
             self._add(q, None, led)
@@ -1066,10 +1093,16 @@ class QuantityMachine(Machine):
                     (np.abs(want) > 1e290) | ((np.abs(want) < 1e-290) & (want != 0))):
                 return "skip_range", None
             before_b = snap(eb["q"])
+            before_a = snap(ea["q"])
+            by_value = op.get("how") == "value"
             try:
                 with np.errstate(all="ignore"):
-                    ea["q"].to(eb["q"].baseunits)
-                    got = ea["q"].value()
+                    if by_value:
+                        # the same unit object as the target of an out-of-place query
+                        got = ea["q"].value(eb["q"].baseunits)
+                    else:
+                        ea["q"].to(eb["q"].baseunits)
+                        got = ea["q"].value()
             except Exception as ex:
                 raise Violation("same_dimension_conversion_refused",
                                 {"from": la["text"], "to": str(lb["text"]) + " (unit object of another "
@@ -1084,6 +1117,13 @@ class QuantityMachine(Machine):
             if not same_snap(before_b, snap(eb["q"])):
                 raise Violation("unit_donor_changed", {"donor": lb["text"]},
                                 signature="C04/to_member/donor_changed")
+            if by_value:
+                if not same_snap(before_a, snap(ea["q"])):
+                    raise Violation("value_query_changed_quantity",
+                                    {"unit": lb["text"], "before": show(before_a),
+                                     "after": show(snap(ea["q"]))},
+                                    signature="C04/value_query_changed")
+                return "value_member_ok", [la["text"], lb["text"]]
             la.update(terms=[list(t) for t in lb["terms"]], text=lb["text"], chain=n)
             self.nontrivial = True
             return "to_member_ok", [la["text"], n]
